@@ -55,6 +55,9 @@ def regions_of(framing, m, uid, pdu):
     return out
 
 
+BINARY_CONVENTION = {}
+
+
 def check_packet(run, case):
     framing, m, uid, tid, pid = case['framing'], case['m'], case['uid'], case['tid'], case['pid']
     d = m['dir']
@@ -87,6 +90,23 @@ def check_packet(run, case):
     want = ADU.build(framing, uid, pdu, tid=tid, pid=pid)
     if framing == 'binary':
         good = ADU.binary_build_ok(pkt, uid, pdu) or (encode_known and pkt[:1] == b'{' and pkt[-1:] == b'}')
+        if good and not encode_known and any(b in (0x7B, 0x7D) for b in pdu[1:]):
+            # The binary framing has no public specification: escaped or unescaped data is accepted (binary_build_ok) - but it has to
+            # be ONE convention.  Frames whose data holds a delimiter tell the conventions apart; all of them must agree.
+            conv = ADU.binary_build_conventions(pkt, uid, pdu)
+            prev = BINARY_CONVENTION.get('set')
+            now = conv if prev is None else (prev & conv)
+            run.count('binary_convention_checks')
+            if not now:
+                w = BINARY_CONVENTION['witness']
+                run.violation('build:binary:inconsistent-escaping', dict(case, earlier=w),
+                              'packet %s follows %s, an earlier packet (%s) followed %s: delimiter bytes in the data are not escaped by one rule'
+                              % (pkt.hex()[:80], sorted(conv), w.get('packet'), sorted(prev)))
+                ok = False
+            else:
+                BINARY_CONVENTION['set'] = now
+                if prev is None or now != prev:
+                    BINARY_CONVENTION['witness'] = dict({k: v for k, v in case.items() if k != 'earlier'}, packet=pkt.hex()[:80])
     else:
         good = pkt == want
     if not good:
@@ -232,5 +252,15 @@ def replay(run, case):
         m['records'] = [tuple(x) if isinstance(x, list) else x for x in m['records']]
     if 'objects' in m:
         m['objects'] = [tuple(x) for x in m['objects']]
-    print('held' if check_packet(run, case) else 'differs')
+    if case.get('earlier'):
+        w = dict(case['earlier'])
+        w.pop('packet', None)
+        for mm in (w['m'],):
+            if 'records' in mm:
+                mm['records'] = [tuple(x) if isinstance(x, list) else x for x in mm['records']]
+            if 'objects' in mm:
+                mm['objects'] = [tuple(x) for x in mm['objects']]
+        check_packet(run, w)
+        run.evaluations += 1
+    print('held' if check_packet(run, {k: v for k, v in case.items() if k != 'earlier'}) else 'differs')
     run.evaluations += 1
